@@ -58,11 +58,21 @@ type WriterSpec struct {
 	Fault *Fault // optional
 }
 
+// SubGate parks one writer right before the Occ-th call named Name of its Commit, in the middle of a model step:
+// e.g. after its node Lock+IsLocked and before the registry Get / the reserving UpdateNoLocks / the flip of
+// commitUpdatedNodes. Other writers can then be stepped while it HOLDS the node lock.
+type SubGate struct {
+	Writer int
+	Name   string
+	Occ    int
+}
+
 type Scenario struct {
 	Slot     int
 	Init     [][]Op // setup transactions (committed one after the other, fault-free)
 	Writers  []WriterSpec
 	Gates    []string      // call names that park a writer during Commit (default l2.Lock, l2.IsLocked, l2.DualLock)
+	SubGates []SubGate     // extra park points INSIDE a step of one writer (it then holds whatever it holds there)
 	Deadline time.Duration // per-writer context deadline for Commit (0 = none)
 	MaxTime  time.Duration // transaction maxTime (default 1 minute)
 }
@@ -83,6 +93,7 @@ type Writer struct {
 	events   chan string
 	armed    bool
 	seen     map[string]int
+	gateSeen map[string]int
 	Rounds   int // times the writer passed through the conflict branch (observed via tlog steps)
 }
 
@@ -147,7 +158,7 @@ func NewRun(ctx context.Context, sc Scenario) (*Run, error) {
 		}
 	}
 	for i, ws := range sc.Writers {
-		r.W = append(r.W, &Writer{Idx: i, Spec: ws, State: "new", resume: make(chan struct{}), events: make(chan string, 4), seen: map[string]int{}})
+		r.W = append(r.W, &Writer{Idx: i, Spec: ws, State: "new", resume: make(chan struct{}), events: make(chan string, 4), seen: map[string]int{}, gateSeen: map[string]int{}})
 	}
 	return r, nil
 }
@@ -206,6 +217,17 @@ func (r *Run) body(w *Writer) {
 	sc.Gate = func(idx int, name string) {
 		prev := last
 		last = name
+		if w.armed {
+			w.gateSeen[name]++
+			for _, sg := range r.Sc.SubGates {
+				if sg.Writer == w.Idx && sg.Name == name && sg.Occ == w.gateSeen[name] {
+					w.ParkedAt = "sub:" + name
+					w.events <- "parked"
+					<-w.resume
+					return
+				}
+			}
+		}
 		if !w.armed || !r.isGate(name) {
 			return
 		}
